@@ -51,7 +51,7 @@ DESIGN = [
     ("HeimdallMC_poll.cfg", 2, 3, "endpoints (polls), 2 sources, 2 requests"),
     ("HeimdallMC.cfg", 2, 3, "file sources (notifications), 2 sources, 2 requests"),
     ("HeimdallMC_stamped.cfg", 2, 3, "observer with counter stamps (as in recorded traces), 1 source"),
-    ("HeimdallMC_live.cfg", 2, 2, "liveness Converges + action property InvalidKeeps, file source"),
+    ("HeimdallMC_live.cfg", 2, 3, "liveness Converges + action property InvalidKeeps, file source"),
     ("HeimdallMC_live_poll.cfg", 2, 2, "liveness Converges + action property InvalidKeeps, endpoint"),
 ]
 # negative controls: (cfg, what TLC must report)
@@ -62,6 +62,9 @@ CONTROLS = [
     ("HeimdallMC_invalid_unloads.cfg", "CtrE3Invalid"), ("HeimdallMC_invalid_unloads_state.cfg", "InvalidKeeps"),
     ("HeimdallMC_lookup_cache.cfg", "CtrE1"), ("HeimdallMC_lookup_cache_state.cfg", "InvE1"),
     ("HeimdallMC_remove_ignored.cfg", "CtrE3Removed"), ("HeimdallMC_remove_ignored_state.cfg", "InvE3"),
+    # not a wrong composition but a stricter contract: without the torn-read clause the reference composition
+    # (whose provider may read a file while it is rewritten in place) is rejected
+    ("HeimdallMC_contract_without_torn_reads.cfg", "InvContract"),
 ]
 
 PARAMS = {
@@ -221,7 +224,7 @@ def judge(work, lines, tag, parts=1):
 
     with ThreadPoolExecutor(max_workers=parts) as ex:
         vs = list(ex.map(one, range(parts)))
-    tot = {"lines": 0, "bad": [], "rejected": 0, "requests": 0, "nontrivial": 0, "acks": 0, "unjudged": 0}
+    tot = {"lines": 0, "bad": [], "rejected": 0, "requests": 0, "nontrivial": 0, "acks": 0, "unjudged": 0, "torn": 0}
     for v in vs:
         for k in tot:
             tot[k] += v[k]
@@ -454,7 +457,7 @@ def run_part(work, tier, seed):
         "histories": gen, "runs": len(hists), "traces_validated_against_impl": len(hists),
         "evaluations": v["requests"] + v["acks"], "requests_judged": v["requests"], "acknowledgements_judged": v["acks"],
         "distinct_nontrivial": v["nontrivial"], "rule": RULE,
-        "requests_without_response": v["unjudged"], "writes_by_kind_and_mode": modes,
+        "requests_without_response": v["unjudged"], "responses_explained_by_a_torn_read_only": v["torn"], "writes_by_kind_and_mode": modes,
         "rejected_by_tlc": v["rejected"], "reproduced": len(confirmed), "unreproduced_rejections": unreproduced,
         "binding_selftest": selftest, "driver": stats, "wall_s": round(time.time() - t0, 1),
         "samples": [e for e in lines[:400] if e["ev"] in ("write", "ack")][:3]
